@@ -35,8 +35,19 @@ type call struct {
 
 var queries = []string{
 	`$.a.b`, `$.xs[@.k.Greater(1)].name`, `{OR,$.a.b.Equal(1),$.s.Contains("x")}`, `$.xs.Select("$.k").Sum()`, `$.xs.k.Sum(1,2)`,
-	`$.s.Left(2)`, `$.missing?.IsNull()`, `$.xs.Count()`, `$.a.b.Add($.xs.First().k)`, `$.xs.Select("$.name.Prefix(\"n\")")`, `$.bad(`, ``, `$.s.DoesMatchRegex("^h")`,
+	`$.s.Left(2)`, `$.missing?.IsNull()`, `$.xs.Count()`, `$.a.b.Add($.xs.First().k)`, `$.xs.Select("$.name.Prefix(\"n\")")`, `$.a.Equal(`, ``, `$.s.DoesMatchRegex("^h")`,
 	`$.s.DoesMatchRegex($.p)`, `$.s.ReplaceRegex($.p,"<$0>")`, `$.xs.Select("$.name.DoesMatchRegex(\"n[0-9]\")")`, `$.a.RemoveKeysByRegex($.p)`, `$.s.Equal("unterminated`, `$.s.Equal('ab'))`,
+}
+
+// coldQueries are only ever parsed inside the concurrent phase (never beforehand, not even for the
+// shared operations): function names the library does not know, spelled differently in every round
+func coldQuery(rng *rand.Rand, round int) string {
+	names := []string{"equal", "sum", "frob", "nope", "Frobnicate", "first"}
+	n := names[rng.Intn(len(names))]
+	if rng.Intn(2) == 0 {
+		n += fmt.Sprintf("R%d", round)
+	}
+	return []string{"$.a." + n + "(1)", "$.xs.k." + n + "(1,2)", "$.s." + n + "($.a.b)", "$.a.b.Equal(1)." + n + "()", "$." + n + "("}[rng.Intn(5)]
 }
 
 var schemas = []string{
@@ -51,14 +62,25 @@ var schemaSuffix = ""
 var vqueries = []string{`$.s1.result`, `$.input.name`, `$.input.name.Equal($.s1.result)`, `$.s2.result`, `$.input.zz`, `$.s1.result.First().k`}
 
 // docs builds the documents; respell > 0 writes the regular expression `p` in a different but
-// equivalent spelling, so that a goroutine meets patterns no one has compiled before
-func docs(respell int) []any {
+// equivalent spelling, so that a goroutine meets patterns no one has compiled before; variant
+// chooses the case in which the keys are written (keys are matched case-insensitively): as in the
+// queries, Capitalised, UPPER
+func docs(respell, variant int) []any {
+	K := func(k string) string {
+		switch variant % 3 {
+		case 1:
+			return strings.ToUpper(k[:1]) + k[1:]
+		case 2:
+			return strings.ToUpper(k)
+		}
+		return k
+	}
 	mk := func(n int) any {
 		xs := []any{}
 		for i := 0; i < n; i++ {
-			xs = append(xs, map[string]any{"k": float64(i), "name": fmt.Sprintf("n%d", i)})
+			xs = append(xs, map[string]any{K("k"): float64(i), K("name"): fmt.Sprintf("n%d", i)})
 		}
-		return map[string]any{"a": map[string]any{"b": float64(n)}, "xs": xs, "s": "hello", "p": fmt.Sprintf("^h.{%d}", n) + strings.Repeat("(?:)", respell)}
+		return map[string]any{K("a"): map[string]any{K("b"): float64(n)}, K("xs"): xs, K("s"): "hello", K("p"): fmt.Sprintf("^h.{%d}", n) + strings.Repeat("(?:)", respell)}
 	}
 	return []any{mk(0), mk(1), mk(3), mk(7)}
 }
@@ -106,7 +128,7 @@ func main() {
 	rounds, total := 0, 0
 	for {
 		rng := rand.New(rand.NewSource(*seed + int64(rounds)))
-		ds := docs(0)
+		shared := docs(0, rounds) // documents read by every goroutine at once
 		ops := make([]mpath.Operation, len(queries))
 		for i, q := range queries {
 			ops[i], _ = mpath.ParseString(q)
@@ -121,12 +143,28 @@ func main() {
 					if rng.Intn(4) == 0 {
 						c.q += fmt.Sprintf(" /* %d */", rng.Intn(1000)) // distinct text
 					}
+					if rng.Intn(5) == 0 {
+						c.q = coldQuery(rng, rounds)
+					}
 				case 1:
-					c = call{kind: "do", op: rng.Intn(len(queries)), data: rng.Intn(len(ds))}
+					c = call{kind: "do", op: rng.Intn(len(queries)), data: rng.Intn(2 * len(shared))} // data >= len(shared): the shared documents
 				default:
 					c = call{kind: "validate", q: vqueries[rng.Intn(len(vqueries))], schema: rng.Intn(len(schemas)), cur: []string{"", "s1", "s2", "input"}[rng.Intn(4)]}
 					if rng.Intn(3) == 0 {
 						c.q += fmt.Sprintf(" /* %d-%d */", rounds, rng.Intn(100000)) // a cache key never seen before
+					}
+				}
+				if i == 0 {
+					// every goroutine starts, at the same moment, with something nobody has done in this
+					// process: the first parse of a name the library does not know / the first validation
+					// against this schema / the first evaluation of an operation with regular expressions
+					switch (int(*seed) + rounds) % 3 {
+					case 0:
+						c = call{kind: "parse", q: coldQuery(rng, rounds)}
+					case 1:
+						c = call{kind: "validate", q: vqueries[rng.Intn(len(vqueries))], schema: rng.Intn(len(schemas)), cur: "s1"}
+					default:
+						c = call{kind: "do", op: 12 + rng.Intn(5), data: rng.Intn(len(shared))}
 					}
 				}
 				plans[t] = append(plans[t], c)
@@ -138,12 +176,14 @@ func main() {
 		got := make([][]string, *g)
 		var wg sync.WaitGroup
 		mismatches := 0
+		release := make(chan struct{})
 		for t := range plans {
 			wg.Add(1)
 			go func(t int) {
 				defer wg.Done()
 				r := rand.New(rand.NewSource(*seed*1000 + int64(t)))
-				ds := docs(1 + t + rounds*(*g)) // same content, regular expressions spelled as no one did before
+				ds := append(docs(1+t+rounds*(*g), t), shared...) // own documents (regular expressions spelled as no one did before, keys in this goroutine's case) and the shared ones
+				<-release // released together
 				for _, c := range plans[t] {
 					if r.Intn(3) == 0 {
 						runtime.Gosched()
@@ -152,6 +192,7 @@ func main() {
 				}
 			}(t)
 		}
+		close(release)
 		wg.Wait()
 		schemaSuffix = fmt.Sprintf("\n// reference phase %d-%d\n", *seed, rounds)
 		// sequential reference, computed alone
@@ -161,6 +202,7 @@ func main() {
 		}
 		want := make([][]string, *g)
 		for t := range plans {
+			ds := append(docs(0, t), shared...)
 			for _, c := range plans[t] {
 				cc := c
 				if cc.kind == "validate" {
